@@ -160,7 +160,7 @@ func c18(x *Ctx) {
 			}
 			nPub++
 			c.Examined++
-			_, addrOK := eng.Derives(cl.Call.Args[1], func(v ssa.Value) bool { return isExtractOf(v, 0, pkg+".publicAddr") }, eng.FlowOpts{})
+			addrOK := x.mustDerive(cl.Call.Args[1], func(v ssa.Value) bool { return isExtractOf(v, 0, pkg+".publicAddr") })
 			idOK := loadsField(cl.Call.Args[2], idF)
 			act, _ := eng.ConstString(cl.Call.Args[0])
 			c.Decide(addrOK && idOK, rP, BaseName(eng.Root(f))+"/"+act, x.Pos(in), "publishes this node's public address under its own instance ID",
